@@ -455,3 +455,123 @@ theorem ilu0Cells_precondition (A : CRS K) (junk : Array K) (hj : junk.size = A.
 end loop
 end Defined
 end Amgcl
+
+/-! ### totality: a stored diagonal in every row excludes the outcome `undefinedInput` -/
+namespace Amgcl
+namespace Defined
+open Relax
+section total
+variable {K : Type} [Add K] [Mul K] [Sub K] [Zero K] [One K] [Div K] [DecidableEq K]
+
+theorem workFold_some (l : List ((Nat × K) × Nat)) (wk : Array (Option Nat)) (c : Nat) (hc : c < wk.size)
+    (h : wk.getD c none ≠ none ∨ c ∈ l.map (·.1.1)) :
+    (l.foldl (fun wk cj => wk.setIfInBounds cj.1.1 (some cj.2)) wk).getD c none ≠ none := by
+  induction l generalizing wk with
+  | nil =>
+    rcases h with h | h
+    · exact h
+    · simp at h
+  | cons a t ih =>
+    rw [List.foldl_cons]
+    apply ih _ (by simpa using hc)
+    by_cases hac : a.1.1 = c
+    · left
+      subst hac
+      simp only [Array.getD_eq_getD_getElem?]
+      rw [Array.getElem?_setIfInBounds_self_of_lt hc]
+      simp
+    · rcases h with h | h
+      · left
+        simp only [Array.getD_eq_getD_getElem?] at h ⊢
+        rw [Array.getElem?_setIfInBounds_ne hac]; exact h
+      · right
+        simp only [List.map_cons, List.mem_cons] at h
+        rcases h with h | h
+        · exact absurd h.symm hac
+        · exact h
+
+theorem iluWork_some (n : Nat) (r : Row K) (c : Nat) (hc : c < n) (hm : c ∈ r.map (·.1)) :
+    ∃ p, (iluWork n r).getD c none = some p := by
+  have : (iluWork n r).getD c none ≠ none := by
+    unfold iluWork
+    apply workFold_some _ _ _ (by simpa using hc)
+    right
+    simp only [List.mem_map] at hm ⊢
+    obtain ⟨cv, hcv, rfl⟩ := hm
+    obtain ⟨k, hk⟩ := List.getElem_of_mem hcv
+    obtain ⟨hk1, hk2⟩ := hk
+    exact ⟨(cv, k), by rw [List.mem_zipIdx_iff_getElem?]; simp [List.getElem?_eq_getElem hk1, hk2], rfl⟩
+  cases h : (iluWork n r).getD c none with
+  | none => exact absurd h this
+  | some p => exact ⟨p, rfl⟩
+
+theorem iluElim_defined (U : Array (Row K)) (D : Vec K) (i : Nat) (work : Array (Option Nat)) :
+    ∀ (cols : List Nat) (w : Array K), (∀ c ∈ cols, ∃ p, work.getD c none = some p) → i ∈ cols →
+      iluElim U D i work cols w ≠ .undefinedInput := by
+  intro cols
+  induction cols with
+  | nil => intro w _ hi; simp at hi
+  | cons c rest ih =>
+    intro w hw hi
+    unfold iluElim
+    by_cases hic : i ≤ c
+    · rw [if_pos hic]
+      by_cases hne : c ≠ i
+      · rw [if_pos hne]; simp
+      · rw [if_neg hne]
+        have hci : c = i := not_not.mp hne
+        obtain ⟨p, hp⟩ := hw c List.mem_cons_self
+        rw [hci] at hp
+        rw [hp]
+        simp only
+        split <;> simp
+    · rw [if_neg hic]
+      obtain ⟨p, hp⟩ := hw c List.mem_cons_self
+      rw [hp]
+      simp only
+      apply ih
+      · intro c' hc'; exact hw c' (List.mem_cons_of_mem _ hc')
+      · rcases List.mem_cons.mp hi with h | h
+        · omega
+        · exact h
+
+/-- a square matrix with in-range columns that stores the diagonal entry of every row is in the domain of the
+constructor: the outcome is `ok` or `precondition`, never `undefinedInput` -/
+theorem ilu0Factor_defined (A : CRS K) (hcols : ∀ i, i < A.nrows → ∀ cv ∈ A.row i, cv.1 < A.nrows)
+    (hdiag : ∀ i, i < A.nrows → i ∈ (A.row i).map (·.1)) : ilu0Factor A ≠ .undefinedInput := by
+  unfold ilu0Factor
+  rw [List.range_eq_range']
+  have key : ∀ (k i : Nat) (F : IluFactors K), i + k = A.nrows → iluLoop A (List.range' i k) F ≠ .undefinedInput := by
+    intro k
+    induction k with
+    | zero => intro i F _; simp [iluLoop]
+    | succ k ih =>
+      intro i F hik
+      rw [List.range'_succ]
+      unfold iluLoop
+      have hi : i < A.nrows := by omega
+      have hrow : iluRow A.nrows F.U.rows F.D i (A.row i) ≠ .undefinedInput := by
+        unfold iluRow
+        simp only
+        have := iluElim_defined F.U.rows F.D i (iluWork A.nrows (A.row i)) ((A.row i).map (·.1))
+          ((A.row i).map (·.2)).toArray
+          (by
+            intro c hc
+            apply iluWork_some A.nrows (A.row i) c _ hc
+            simp only [List.mem_map] at hc
+            obtain ⟨cv, hcv, rfl⟩ := hc
+            exact hcols i hi cv hcv)
+          (hdiag i hi)
+        cases he : iluElim F.U.rows F.D i (iluWork A.nrows (A.row i)) ((A.row i).map (·.1)) ((A.row i).map (·.2)).toArray with
+        | ok w => simp
+        | precondition => simp
+        | undefinedInput => exact absurd he this
+      cases hr : iluRow A.nrows F.U.rows F.D i (A.row i) with
+      | ok ldu => obtain ⟨l, d, u⟩ := ldu; simp only; exact ih (i + 1) _ (by omega)
+      | precondition => simp
+      | undefinedInput => exact absurd hr hrow
+  exact key A.nrows 0 _ (by omega)
+
+end total
+end Defined
+end Amgcl
